@@ -62,12 +62,56 @@ def fresh_dir():
 # ---------------------------------------------------------------------------
 # fakes
 
-class CalledProcessError(Exception):
-    def __init__(self, returncode, cmd, output=None):
-        super().__init__(returncode, cmd)
-        self.returncode = returncode
-        self.cmd = cmd
-        self.output = output
+# the class the real wrapper raises (so that `except
+# subproc.CalledProcessError` anywhere in the code under test catches it)
+from treadmill.subproc import CalledProcessError  # noqa: E402
+
+
+class Fault:
+    """Command-failure injection for the finish slice.  Every external
+    command the finish path issues - each `ipset` / `conntrack` invocation
+    reaching the fake subproc, each unlink of a rule or endpoint-spec file,
+    the network service delete - is a numbered fault point.  `arm(k)` makes
+    exactly the k-th one fail ONCE with the exception the real wrapper raises
+    (CalledProcessError rc 2 resp. OSError EIO); `arm(None)` only counts."""
+
+    def __init__(self):
+        self.active = False
+        self.n = 0
+        self.fail_at = None
+        self.fired = None
+
+    def arm(self, k):
+        self.n = 0
+        self.fail_at = k
+        self.fired = None
+
+    def tick(self, kind, what):
+        if not self.active:
+            return
+        idx = self.n
+        self.n += 1
+        if idx == self.fail_at and self.fired is None:
+            self.fired = (kind, what)
+            if kind == 'subproc':
+                raise CalledProcessError(2, list(what))
+            raise OSError(errno.EIO, 'injected I/O error', str(what))
+
+
+FAULT = Fault()
+
+
+class FaultOs:
+    """`os` as seen by treadmill.rulefile / treadmill.endpoints in the C16
+    process: unlink is a fault point, everything else is the real module."""
+
+    def __getattr__(self, name):
+        return getattr(os, name)
+
+    @staticmethod
+    def unlink(path, *a, **kw):
+        FAULT.tick('unlink', os.path.basename(os.path.dirname(path)))
+        return os.unlink(path, *a, **kw)
 
 
 class FakeSubproc:
@@ -86,6 +130,7 @@ class FakeSubproc:
     def invoke(self, cmd, cmd_input=None, use_except=True, **_kw):
         host = self.host
         host.calls.append(tuple(cmd[:3]))
+        FAULT.tick('subproc', [c for c in cmd[:4] if c != '-exist'][:2])
         if cmd[0] != 'ipset':
             return (0, '')
         args = list(cmd[1:])
@@ -133,6 +178,7 @@ class FakeSubproc:
 
     def check_call(self, cmd, **_kw):
         self.host.calls.append(tuple(cmd[:2]))
+        FAULT.tick('subproc', cmd[:2])
         return 0
 
     def check_output(self, cmd, **_kw):
@@ -311,6 +357,8 @@ def install():
         _PRIMED.append(True)
     utils.collections = _CachedCollections()
     iptables.subproc = SUBPROC
+    rulefile.os = FaultOs()
+    endpoints.os = FaultOs()
     runtime.socket = SOCKET
     runtime.random = RANDOM
     _run.socket = FakeResolver
@@ -346,6 +394,7 @@ class NetworkClient:
         return dict(v) if v else None
 
     def delete(self, rsrc_id):
+        FAULT.tick('network-client', 'delete')
         self.alloc.pop(rsrc_id, None)
 
 
@@ -493,7 +542,12 @@ class Host:
         app = runtime.load_app_safe(unique, data_dir)
         if app:
             if hasattr(app, 'shared_network') and not app.shared_network:
-                _finish._cleanup_network(self.tm_env, data_dir, app, self.net)
+                FAULT.active = True
+                try:
+                    _finish._cleanup_network(self.tm_env, data_dir, app,
+                                             self.net)
+                finally:
+                    FAULT.active = False
         # the container's supervisor is gone: its sockets are closed
         for s in self.sockets.pop(unique, ()):
             s.close()
